@@ -93,6 +93,7 @@ Proof.
   cbn [holds_from] in H. apply andb_true_iff in H. destruct H as [H1 H2].
   cbn [core_from]. rewrite (IH _ _ H2), andb_true_r.
   unfold call_holds in H1. unfold call_holds_core.
+  apply andb_true_iff in H1. destruct H1 as [H1 K9].
   apply andb_true_iff in H1. destruct H1 as [H1 K8].
   apply andb_true_iff in H1. destruct H1 as [H1 K7].
   apply andb_true_iff in H1. destruct H1 as [H1 K6].
@@ -100,5 +101,5 @@ Proof.
   apply andb_true_iff in H1. destruct H1 as [H1 K4].
   apply andb_true_iff in H1. destruct H1 as [H1 K3].
   apply andb_true_iff in H1. destruct H1 as [K1 K2].
-  now rewrite K1, K2, K3, K4, K8.
+  now rewrite K1, K2, K3, K4, K9.
 Qed.
